@@ -101,6 +101,10 @@ def generate(seed, tier):
     if r.random() < 0.5:
         # a stray datagram aimed at the SPI pair of a handshake in progress, delivered between D's IKE_SA_INIT response and P's IKE_AUTH request
         sc['halfopen_stray'] = {'seed': r.randrange(2 ** 31), 'p': r.choice([0.5, 1.0])}
+    if r.random() < 0.3:
+        # a kernel with sub-policies, marks or interface ids: its ACQUIRE / EXPIRE events carry XFRMA_POLICY_TYPE, XFRMA_MARK, XFRMA_IF_ID
+        sc['kernel_event_attrs'] = r.sample(['policy_type', 'mark', 'if_id'], r.randint(1, 3))
+        sc['meta']['kernel_event_attrs'] = True
     return sc
 
 
